@@ -21,7 +21,10 @@ private void fire(string k) {
   if (h) { map_delete(hook, k); nfired++; if (h[0]) call_other(h[0], h[1]); }
 }
 
+int api_ok(mixed a) { mixed t = ({ a }); string s = "m" + sizeof(t); return sizeof(t) + strlen(s); }
 mixed error_handler(mapping m, int caught) {
+  // policy "eh_catch": a master whose error handler itself uses catch (one that catches an error, one that does not)
+  if (pol["eh_catch"]) { mixed e1, e2; e1 = catch(error("inner\n")); e2 = catch(sizeof(m)); if (!e1 || e2) last_error = "eh_catch broken"; }
   if (!caught) last_error = m["error"];
   errors += ({ ({ m["error"], caught }) });
   return 0;
